@@ -1252,6 +1252,12 @@ func (s *Server) cleanupExpiredLeases() {
 				s.loader.RemoveSubscriber(macU64)
 			}
 		}
+
+		// An expired session also gives up its accounting session, QoS policy,
+		// NAT allocation and the VLAN / circuit-id fast path entries
+		if hwAddr, _ := net.ParseMAC(mac); hwAddr != nil {
+			s.releaseLeaseResources(hwAddr, lease, radius.TerminateCauseSessionTimeout)
+		}
 	}
 	s.leasesMu.Unlock()
 
